@@ -43,7 +43,9 @@ def native_concat(values: t.Iterable[t.Any]) -> t.Any | None:
             # parse the string ourselves without removing leading spaces/tabs.
             parse(raw, mode="eval")
         )
-    except (ValueError, SyntaxError, MemoryError):
+    except (ValueError, SyntaxError, MemoryError, TypeError, RecursionError):
+        # TypeError: unhashable dict key or set element such as "{[1]: 2}";
+        # RecursionError: expression nested too deeply for the parser.
         return raw
 
 
